@@ -33,6 +33,9 @@ type RoutesJob struct {
 	TopEnum bool   `json:"topEnum"`
 	RespVal bool   `json:"respVal"`
 	Auth    string `json:"auth,omitempty"` // authFileFullPackageName override (the callback's signature is engine specific)
+	// template customisation of this generation (extension / partial name -> file path relative to the project)
+	Extensions map[string]string `json:"extensions,omitempty"`
+	Overrides  map[string]string `json:"overrides,omitempty"`
 }
 
 // Job is one run of the real pipeline over one project directory in a fresh process.
@@ -314,6 +317,7 @@ func runJob(job Job) *Result {
 				c.RoutesConfig.AuthorizationConfig.AuthFileFullPackageName = rj.Auth
 			}
 			c.RoutesConfig.SkipGenerateDateComment = true
+			c.RoutesConfig.TemplateExtensions, c.RoutesConfig.TemplateOverrides = rj.Extensions, rj.Overrides
 			c.RoutesConfig.ValidateResponsePayload = rj.RespVal
 			c.ExperimentalConfig.GenerateEnumValidator = rj.EnumVal
 			c.ExperimentalConfig.ValidateTopLevelOnlyEnum = rj.TopEnum
